@@ -133,6 +133,16 @@ P_C15_opt == (IsSummary /\ E.transopt > 0 /\ E.ls > 0) =>
          /\ Range1(FoldLeft(LAMBDA acc, c : acc \o c.v, << >>, t.cyc)) = VehOfType(A, t.ty)
          /\ LexLeq(<<TypeViolation(NetE, B, t.ty), TypeCounter(NetE, B, t.ty)>>,
                    <<TypeViolation(NetE, A, t.ty), TypeCounter(NetE, A, t.ty)>>)
+\* the cycles the pipeline carries after the transition optimisation are the optimiser's own
+\* choice, i.e. a local optimum of it: the real optimiser re-run on that schedule finds nothing
+\* better (violation, then counter; both recomputed from the tours of the transopt snapshot)
+P_C16_optfix == (E.ev = "optrerun" /\ E.pi > 0) =>
+   /\ E.ok
+   /\ LET S == Rec[E.pi].S
+      IN \A t \in Range1(E.tr) :
+            LET cs == [i \in DOMAIN t.cyc |-> t.cyc[i]]
+            IN ~LexLess(<<Violation(NetE, TourMap(S), cs), CounterTotal(NetE, TourMap(S), cs)>>,
+                        <<TypeViolation(NetE, S, t.ty), TypeCounter(NetE, S, t.ty)>>)
 \* all stages were observed (no stage silently skipped)
 P_C16_stages == IsSummary => (E.mcf > 0 /\ E.start > 0 /\ E.ls > 0 /\ E.transopt > 0 /\ E.final > 0 /\ E.out > 0)
 =============================================================================
